@@ -67,6 +67,13 @@ class WithInit(AutoSerialize):
         self.made_by_init = True
 
 
+class Unpicklable:
+    """not an AutoSerialize object and not picklable: the dill fallback of save() must fail on it."""
+
+    def __reduce__(self):
+        raise RuntimeError("Unpicklable: refusing to be pickled")
+
+
 CLASSES = {"Node": Node, "Leaf": Leaf, "SubLeaf": SubLeaf, "Other": Other}
 
 def place(v, placement, rng):
@@ -223,3 +230,144 @@ def gen_object(rng, depth=0, maxdepth=4, stats=None, cls=None, min_attrs=0):
 
 def random_graph(rng, maxdepth=4):
     return gen_object(rng, 0, maxdepth, {}, cls=Node, min_attrs=3)
+
+
+# ------------------------------------------------------------------------------------------------
+# fixed graph family for the fault-injection property (C08); members avoid the kinds whose round trip
+# C01 found defective, so that the same graphs save cleanly on the unrepaired tree as well
+
+FAULT_GRAPHS = ["flat", "nested", "torch", "containers_of_objects", "many_small", "arrays"]
+
+
+def fault_graph(index, seed=0):
+    """graph number `index`: the six named families first, seeded random graphs afterwards."""
+    rng = np.random.default_rng([int(seed), 8, 77, int(index)])
+    if index >= len(FAULT_GRAPHS):
+        return _safe_random_graph(rng)
+    name = FAULT_GRAPHS[index]
+    g = Node()
+    if name == "flat":
+        g.i = 5
+        g.s = "text"
+        g.arr = make_array_shape(rng, "float64", (3, 4))
+        g.nums = [1, 2, 3]
+        g.mix = ["a", make_array_shape(rng, "int16", (3,)), None]
+        g.none = None
+        g.path = Path("some/where")
+    elif name == "nested":
+        g.v = 1
+        g.child = make_leaf(rng)
+        g.child.sub = make_leaf(rng, Other)
+        g.child.sub.deep = make_leaf(rng)
+        g.child.sub.deep.tail = "end"
+        g.after = (1, "b")
+    elif name == "torch":
+        g.t = make_tensor(rng, "float32").requires_grad_(True)
+        g.mod = build_kind("module:linear", rng)
+        g.opt = build_kind("optimizer:sgd", rng)
+        g.n = 3
+        g.half = make_tensor(rng, "float16", "0d")
+    elif name == "containers_of_objects":
+        g.objs = [make_leaf(rng), make_leaf(rng, Other)]
+        g.byname = {"first": make_leaf(rng), "second": {"inner": make_leaf(rng, Other), "k": 1}}
+        g.pair = (make_leaf(rng), "x")
+        g.tail = 2.5
+    elif name == "many_small":
+        for j, nm in enumerate(["a", "b", "c", "d", "e", "f", "g", "h", "i", "j", "k", "l"]):
+            setattr(g, nm, [j, float(j) + 0.5, "s%d" % j, bool(j % 2), None][j % 5])
+        g.e1, g.e2, g.e3 = [], {}, ()
+        g.np1 = np.int32(7)
+        g.np2 = np.float32(2.5)
+    elif name == "arrays":
+        g.a0 = make_array_shape(rng, "int64", (2, 3))
+        g.a1 = make_array_shape(rng, "uint8", (0,))
+        g.a2 = make_array_shape(rng, "complex64", (2, 2))
+        g.a3 = make_array_shape(rng, "U", (3,))
+        g.a4 = make_array_shape(rng, "M8[ns]", (4,))
+        g.lst = [make_array_shape(rng, "float32", (2,)), make_array_shape(rng, "bool", (2, 2))]
+        g.d = {"x": make_array_shape(rng, "int8", (5,)), "y": [1.5, 2.5]}
+    return g
+
+
+_SAFE_SCALARS = ["none", "bool:true", "int:small", "int:neg", "float:plain", "float:nan", "str:ascii", "str:unicode", "path:rel", "np:int32", "np:float32", "np:bool_"]
+_SAFE_DTYPES = ["bool", "int16", "int64", "uint8", "float32", "float64", "complex64", "U", "M8[ns]"]
+
+
+def _safe_value(rng, depth, maxdepth):
+    c = int(rng.integers(10 if depth < maxdepth else 6))
+    if c <= 1:
+        return build_kind(_SAFE_SCALARS[int(rng.integers(len(_SAFE_SCALARS)))], rng)
+    if c == 2:
+        return make_array(rng, _SAFE_DTYPES[int(rng.integers(len(_SAFE_DTYPES)))], ["e1", "1d", "2d", "3d", "nc"][int(rng.integers(5))])
+    if c == 3:
+        return make_tensor(rng, ["float32", "int64", "bool"][int(rng.integers(3))], ["0d", "2d", "empty"][int(rng.integers(3))])
+    if c == 4:
+        return [int(v) for v in rng.integers(-9, 9, size=int(rng.integers(1, 5)))]
+    if c == 5:
+        return ("t", int(rng.integers(9)), None)
+    if c == 6:
+        return [_safe_value(rng, depth + 1, maxdepth) for _ in range(int(rng.integers(0, 4)))] + ["s"]
+    if c == 7:
+        return {k: _safe_value(rng, depth + 1, maxdepth) for k in _names(rng, int(rng.integers(0, 4)))}
+    o = [Node, Leaf, Other][int(rng.integers(3))]()
+    for nm in _names(rng, int(rng.integers(1, 5))):
+        setattr(o, nm, _safe_value(rng, depth + 1, maxdepth))
+    return o
+
+
+def _safe_random_graph(rng):
+    g = Node()
+    for nm in _names(rng, int(rng.integers(3, 8))):
+        setattr(g, nm, _safe_value(rng, 0, 3))
+    return g
+
+
+def bad_member(kind):
+    """a member the serializer cannot store (natural save failure)."""
+    if kind == "object_array":
+        return np.array([None, "a", 1.5], dtype=object)
+    if kind == "generator":
+        return (x for x in range(3))
+    if kind == "unpicklable":
+        return Unpicklable()
+    raise KeyError(kind)
+
+
+def graph_with_bad_member(kind, position, seed=0):
+    """the 'flat' / 'nested' graph with an un-storable member first / middle / last / nested / inside a list."""
+    rng = np.random.default_rng([int(seed), 8, 99])
+    bad = bad_member(kind)
+    g = Node()
+    good = [("i", 5), ("arr", make_array_shape(rng, "float64", (3, 4))), ("s", "text"), ("nums", [1, 2, 3]), ("t", make_tensor(rng, "float32"))]
+    if position == "first":
+        g.bad = bad
+        for k, v in good:
+            setattr(g, k, v)
+    elif position == "middle":
+        for k, v in good[:2]:
+            setattr(g, k, v)
+        g.bad = bad
+        for k, v in good[2:]:
+            setattr(g, k, v)
+    elif position == "last":
+        for k, v in good:
+            setattr(g, k, v)
+        g.bad = bad
+    elif position == "nested":
+        for k, v in good[:3]:
+            setattr(g, k, v)
+        g.child = make_leaf(rng)
+        g.child.sub = make_leaf(rng, Other)
+        g.child.sub.bad = bad
+        g.child.after = 1
+        for k, v in good[3:]:
+            setattr(g, k, v)
+    elif position == "in_list":
+        for k, v in good[:2]:
+            setattr(g, k, v)
+        g.items = ["a", make_array_shape(rng, "int8", (2,)), bad, "z"]
+        for k, v in good[2:]:
+            setattr(g, k, v)
+    else:
+        raise KeyError(position)
+    return g
